@@ -3,7 +3,7 @@ use std::{collections::{HashMap, HashSet}, io::{BufRead, Write}, path::{Path, Pa
 use watchexec::{sources::fs::{verif, Watcher as Kind}, Config, WatchedPath};
 
 #[derive(Default)]
-struct World { log: Vec<String>, fail_watch: HashSet<String>, fail_unwatch: HashSet<String>, hooks: HashMap<String, (Vec<String>, String)>, cfg: Option<Arc<Config>>, live: Option<Vec<String>>, gen: u64 }
+struct World { log: Vec<String>, fail_watch: HashSet<String>, fail_unwatch: HashSet<String>, shape: HashMap<String, String>, hooks: HashMap<String, (Vec<String>, String)>, cfg: Option<Arc<Config>>, live: Option<Vec<String>>, gen: u64 }
 
 fn key(p: &Path, rec: bool) -> String { format!("{}{}", p.file_name().unwrap().to_string_lossy(), if rec { "+" } else { "-" }) }
 fn wp(k: &str) -> WatchedPath { let name = &k[..k.len() - 1]; let p = PathBuf::from(format!("/p/{name}")); if k.ends_with('+') { WatchedPath::recursive(p) } else { WatchedPath::non_recursive(p) } }
@@ -13,6 +13,20 @@ fn apply(cfg: &Config, paths: &[String], k: &str) {
     // two independent public setters, as a client would call them
     cfg.file_watcher(kind(k));
     cfg.pathset(paths.iter().map(|p| wp(p)).collect::<Vec<_>>());
+}
+
+/// the injected failure: a notify error that names nothing (`0`), the path it was given (`s`), one other path — a child, as a
+/// recursive back-end does — (`1`), the given path and a child (`s1`), or two children (`2`)
+fn injected(path: &Path, shape: Option<&String>) -> notify::Error {
+    let mut e = notify::Error::generic("injected");
+    match shape.map(|s| s.as_str()) {
+        Some("s") => e = e.add_path(path.to_path_buf()),
+        Some("1") => e = e.add_path(path.join("child")),
+        Some("s1") => e = e.add_path(path.to_path_buf()).add_path(path.join("child")),
+        Some("2") => e = e.add_path(path.join("child")).add_path(path.join("other")),
+        _ => {}
+    }
+    e
 }
 
 struct RecW { w: Arc<Mutex<World>>, registered: Vec<String>, gen: u64 }
@@ -28,7 +42,7 @@ impl notify::Watcher for RecW {
         let k = key(path, mode == notify::RecursiveMode::Recursive); let name = k[..k.len() - 1].to_string();
         self.w.lock().unwrap().log.push(format!("watch:{k}"));
         self.fire(&name);
-        if self.w.lock().unwrap().fail_watch.contains(&name) { return Err(notify::Error::generic("injected")); }
+        { let w = self.w.lock().unwrap(); if w.fail_watch.contains(&name) { return Err(injected(path, w.shape.get(&name))); } }
         self.registered.retain(|r| r[..r.len() - 1] != name); self.registered.push(k);
         self.w.lock().unwrap().live = Some(self.registered.clone());
         Ok(())
@@ -37,7 +51,7 @@ impl notify::Watcher for RecW {
         let name = path.file_name().unwrap().to_string_lossy().to_string();
         self.w.lock().unwrap().log.push(format!("unwatch:{name}"));
         self.fire(&name);
-        if self.w.lock().unwrap().fail_unwatch.contains(&name) { return Err(notify::Error::generic("injected")); }
+        { let w = self.w.lock().unwrap(); if w.fail_unwatch.contains(&name) { return Err(injected(path, w.shape.get(&name))); } }
         if !self.registered.iter().any(|r| r[..r.len() - 1] == name) { return Err(notify::Error::watch_not_found()); }
         self.registered.retain(|r| r[..r.len() - 1] != name);
         self.w.lock().unwrap().live = Some(self.registered.clone());
@@ -68,9 +82,9 @@ async fn run_case(ops: Vec<String>) -> String {
             "set" => { apply(&cfg, &paths(f[1]), f[2]); settle().await; }
             "poke" => { cfg.signal_change(); settle().await; }
             "hook" => { world.lock().unwrap().hooks.clear(); world.lock().unwrap().hooks.insert(f[1].to_string(), (paths(f[2]), f[3].to_string())); continue; }
-            "failw" => { world.lock().unwrap().fail_watch.insert(f[1].to_string()); continue; }
+            "failw" => { let mut w = world.lock().unwrap(); w.fail_watch.insert(f[1].to_string()); w.shape.remove(f[1]); if f.len() > 2 { w.shape.insert(f[1].to_string(), f[2].to_string()); } continue; }
             "okw" => { world.lock().unwrap().fail_watch.remove(f[1]); continue; }
-            "failu" => { world.lock().unwrap().fail_unwatch.insert(f[1].to_string()); continue; }
+            "failu" => { let mut w = world.lock().unwrap(); w.fail_unwatch.insert(f[1].to_string()); if f.len() > 2 { w.shape.insert(f[1].to_string(), f[2].to_string()); } continue; }
             _ => return "bad-op".into(),
         }
         let mut errs = 0; while er_r.try_recv().is_ok() { errs += 1; }
